@@ -106,6 +106,61 @@ def uses_of(files, names):
     return out
 
 
+def scoped_uses(files, f, ext, is_local, names):
+    stem = f.rsplit(".", 1)[0]
+    out = []
+    if is_local:
+        sub = {f: files[f][ext[0]:ext[1]]}
+        base_line = files[f].count("\n", 0, ext[0])
+        for (kind, ff, ln, t) in uses_of(sub, names):
+            out.append((kind, ff, ln + base_line, t))
+        return out
+    for (kind, ff, ln, t) in uses_of(files, names):
+        own = ff.rsplit(".", 1)[0] in (stem, stem + "_def")
+        via_object = any(re.search(r"(?:->|\.|::)\s*%s\b" % re.escape(n), t) for n in names)
+        if own or via_object or any(n in ALIASES.get(names[0], []) and n in t for n in names):
+            out.append((kind, ff, ln, t))
+    # local copies (T const x = ... dest ...;): uses of the copy inside the function that makes it
+    for n in names[:1] + ALIASES.get(names[0], []):
+        pat = re.compile(r"\b(?:int|size_t|long|cvm::step_number|auto)\s+(?:const\s+)?(\w+)\s*=\s*[^;]*\b" + re.escape(n) + r"\b(?:\s*\(\s*\))?[^;]*;")
+        for ff, txt in files.items():
+            for m in pat.finditer(txt):
+                e2 = function_extent(txt, m.start())
+                if not e2 or len(m.group(1)) < 2:
+                    continue
+                base_line = txt.count("\n", 0, e2[0])
+                for (kind, _f, ln, t) in uses_of({ff: txt[e2[0]:e2[1]]}, [m.group(1)]):
+                    rec = (kind, ff, ln + base_line, t)
+                    if rec not in out:
+                        out.append(rec)
+    return out
+
+
+def function_extent(txt, pos):
+    """(start, end) offsets of the body of the function that contains offset pos: the outermost enclosing block whose
+    opening brace follows a parameter list; None at file scope"""
+    stack, best = [], None
+    i, n = 0, len(txt)
+    opens = []
+    for m in re.finditer(r"[{}]", txt):
+        if m.start() >= pos:
+            break
+        if m.group(0) == "{":
+            opens.append(m.start())
+        elif opens:
+            opens.pop()
+    for o in opens:                      # outermost first
+        head = txt[max(0, o - 200):o]
+        if re.search(r"\)\s*(?:const\s*)?(?:override\s*)?(?:noexcept\s*)?(?::[^{;]*)?$", head) and not re.search(r"\b(?:if|for|while|switch|catch)\s*\([^{;]*$", head):
+            depth, j = 0, o
+            for m in re.finditer(r"[{}]", txt[o:]):
+                depth += 1 if m.group(0) == "{" else -1
+                if depth == 0:
+                    return (o, o + m.end())
+            return (o, n)
+    return None
+
+
 def local_copies(files, name):
     """identifiers initialised from `name` (or its accessor): `T const x = ... name ...;`"""
     out = set()
@@ -150,10 +205,18 @@ def _scan(files):
         else:
             continue
         names = [dest] + ALIASES.get(dest, [])
-        for n in list(names):
-            names += sorted(local_copies(files, n))
+        # scoping: a destination declared inside the function that reads the keyword is only looked for in that
+        # function; a member is looked for in the files of its class and wherever it is reached through an object
+        # (x->dest, x.dest, Class::dest) or an accessor; local copies only in the function that makes them
+        txt = files[f]
+        site = [m.start() for m in KEYVAL.finditer(txt) if m.group(1) == kw]
+        ext = function_extent(txt, site[0]) if site else None
+        is_local = bool(ext and re.search(r"(?<![\w:.>])(?:%s)\s+(?:const\s+)?(?:\w+\s*,\s*)*%s\s*[;=,]" % (
+            "|".join(re.escape(x) for x in INT_TYPES + REAL_TYPES), re.escape(dest)), txt[ext[0]:ext[1]]))
         names = [n for n in dict.fromkeys(names) if len(n) > 1]
-        us = uses_of(files, names)
+        if not names:
+            continue
+        us = scoped_uses(files, f, ext, is_local, names)
         if cls == "real":
             us = [u for u in us if u[0] in ("cast", "size", "loop", "index")]
         else:
@@ -167,7 +230,55 @@ def _scan(files):
         for u in us:
             if u not in r["uses"]:
                 r["uses"].append(u)
+    for r in scan_key_lookup(files):
+        recs.setdefault((r["file"], r["keyword"]), r)
     return sorted(recs.values(), key=lambda r: (r["file"], r["keyword"]))
+
+
+KEYLOOKUP = re.compile(r'key_lookup\s*\(\s*[\w.>()-]+\s*,\s*"(\w+)"\s*,\s*&\s*(\w+)')
+
+
+def scan_key_lookup(files):
+    """keywords read with key_lookup() and parsed by hand: integers extracted from the looked-up text with
+    `std::istringstream is(text); is >> a >> b`, and their guard-relevant uses inside the same function"""
+    out = []
+    for f, txt in files.items():
+        if not f.endswith(".cpp"):
+            continue
+        for m in KEYLOOKUP.finditer(txt):
+            kw, var = m.group(1), m.group(2)
+            ext = function_extent(txt, m.start())
+            if not ext:
+                continue
+            body = txt[ext[0]:ext[1]]
+            # the text may be handed to a helper: follow one call `helper(var)` into the same file
+            bodies = [(body, ext[0])]
+            for c in re.finditer(r"\b(\w+)\s*\(\s*(?:\w+\s*,\s*)*%s\s*\)" % re.escape(var), body):
+                d = re.search(r"\b\w[\w:]*::%s\s*\([^)]*\)\s*\{" % re.escape(c.group(1)), txt)
+                if d:
+                    e2 = function_extent(txt, d.end() + 1)
+                    if e2:
+                        bodies.append((txt[e2[0]:e2[1]], e2[0]))
+            for b, off in bodies:
+                for s_ in re.finditer(r"std::istringstream\s+(\w+)\s*\(\s*\w+\s*\)", b):
+                    ints = []
+                    for d in re.finditer(r"\b(?:int|size_t|long)\s+([\w\s,]+);", b):
+                        ints += [x.strip() for x in d.group(1).split(",")]
+                    got = [x for x in ints if re.search(r"%s\s*>>\s*%s\b|>>\s*%s\b" % (s_.group(1), re.escape(x), re.escape(x)), b)]
+                    if not got:
+                        continue
+                    base_line = txt.count("\n", 0, off)
+                    us = [(k, f, ln + base_line, t) for (k, _f, ln, t) in uses_of({f: b}, got) if k != "cast"]
+                    if us:
+                        out.append({"file": f, "line": txt.count("\n", 0, m.start()) + 1, "keyword": kw, "dest": "/".join(got),
+                                    "type": "int (key_lookup)", "uses": us})
+    # one record per (file, keyword)
+    seen, res = set(), []
+    for r in out:
+        if (r["file"], r["keyword"]) not in seen:
+            seen.add((r["file"], r["keyword"]))
+            res.append(r)
+    return res
 
 
 def kinds(r):
